@@ -452,13 +452,13 @@ pub fn run(ctx: &mut Ctx) {
             run_case(ctx, &Json::obj().set("lane", "scenario").set("name", name).set("seed", ctx.seed));
         }
     }
-    let n = ctx.tier_pick(90u64, 6000);
+    let n = ctx.tier_pick(90u64, 700);
     let mut rng = ctx.rng("cases");
     for i in 0..n {
         let ty = *rng.pick(&["i64", "u64", "String"]);
         let n_sk = if rng.chance(0.3) { 1 } else { rng.range(2, 5) };
         let domain = *rng.pick(&[8u64, 40, 300, 1500, 4096]);
-        let max_n = ctx.tier_pick(*rng.pick(&[50u64, 400, 3000, 12000]), *rng.pick(&[50u64, 400, 3000, 30000, 1_000_000]));
+        let max_n = ctx.tier_pick(*rng.pick(&[50u64, 400, 3000, 12000]), *rng.pick(&[50u64, 400, 3000, 30000, 300_000]));
         let case = Json::obj()
             .set("type", ty)
             .set("n_sketches", n_sk)
